@@ -313,7 +313,7 @@ def run(ctx):
     ok, drv_ok = ctx.prove(MODULE, THEOREMS)
     h = build(ctx)
     drv = C.drv_path() if drv_ok else None
-    n = 20000 if ctx.tier == "quick" else 250000
+    n = 60000 if ctx.tier == "quick" else 400000
     explore(ctx, h, drv, n, "main")
     if ctx.proof_broken or ctx.corr_broken:
         ctx.log("obligation or correspondence broken: widening the search for a failing input")
